@@ -144,7 +144,7 @@ def _compute_headers(cols, col_indices):
 		col = cols[idx]
 
 		# Display name
-		disp = col._name or ""
+		disp = "" if col._name is None else str(col._name)   # (a label such as 0 or False is a name)
 		display_names.append(disp)
 
 		# Sanitized dot name
